@@ -16,11 +16,11 @@ def apply(F):
     F.wrap([], r'pub\(crate\) fn write_u16_be\b', upto_rx=r'pub\(crate\) fn write_u64_be\b')
 
     F.contract([], r'pub\(crate\) fn full_suite_id\b', ret='r', clauses='''
-    ensures /*@C02 C07*/ r@ == full_suite_id_spec(Kem::KEM_ID, Kdf::KDF_ID, A::AEAD_ID),
+    ensures /*@C02 C07 ~C01*/ r@ == full_suite_id_spec(Kem::KEM_ID, Kdf::KDF_ID, A::AEAD_ID),
 ''')
     F.wrap([], r'pub\(crate\) fn full_suite_id\b')
     F.contract([], r'pub\(crate\) fn kem_suite_id\b', ret='r', clauses='''
-    ensures /*@C02 C03*/ r@ == kem_suite_id_spec(Kem::KEM_ID),
+    ensures /*@C02 C03 ~C01*/ r@ == kem_suite_id_spec(Kem::KEM_ID),
 ''')
     F.wrap([], r'pub\(crate\) fn kem_suite_id\b')
 
